@@ -336,6 +336,20 @@ def make_source(kind, encoding="utf-8"):
     return IOX.path_source("swc_file")
 
 
+NEUTRAL_OPEN_OPTIONS = {
+    # options of open() / io.TextIOWrapper that do not change WHICH text is delivered or whether undecodable bytes raise: buffering
+    # strategy, explicit defaults, and universal-newline variants that still end a line at every "\n" (the line grammar takes "\r"
+    # as a blank).  Everything else -- errors="ignore"/"replace"/..., newline="\r", a different encoding -- counts.
+    "line_buffering": (True, False), "write_through": (True, False), "buffering": (-1, 1, 4096, 8192, 65536, 1 << 20), "errors": (None, "strict"),
+    "newline": (None, "", "\n", "\r\n"), "closefd": (True,), "opener": (None,),
+}
+
+
+def relevant_options(kwargs):
+    """the keyword arguments of an open / wrap event minus the neutral ones"""
+    return {k: v for k, v in kwargs.items() if not (k in NEUTRAL_OPEN_OPTIONS and not isinstance(v, (Sym, Opaque)) and v in NEUTRAL_OPEN_OPTIONS[k])}
+
+
 def register_reader(R):
     from swcgeom.utils.file import FileReader
 
@@ -433,9 +447,9 @@ def register_reader(R):
         if kind == "text-stream" or (kind == "path" and o["g_state"] == "entered-before"):
             return ops == [] and r is o["g_f0"]
         if kind == "byte-stream":
-            return (ops == ["wrap"] and ev[0]["handle"] is r and ev[0]["buffer"] is src and ev[0]["encoding"] is o["g_enc"] and ev[0]["kwargs"] == {})
+            return (ops == ["wrap"] and ev[0]["handle"] is r and ev[0]["buffer"] is src and ev[0]["encoding"] is o["g_enc"] and relevant_options(ev[0]["kwargs"]) == {})
         return (ops == ["open"] and ev[0]["handle"] is r and ev[0]["name"] is src and ev[0]["mode"] == "r" and ev[0]["encoding"] is o["g_enc"]
-                and ev[0]["kwargs"] == o["g_kw"])
+                and relevant_options(ev[0]["kwargs"]) == relevant_options(o["g_kw"]))
 
     def enter_lines(E, v, o):
         """the handle returned delivers the lines of the reader's source"""
@@ -553,8 +567,29 @@ def register_parse(R):
             lst.hint = "int" if c in (0, 1, 6) else "real"
         return True
 
+    def the_handle(v):
+        """the text handle over the source being parsed (whatever local holds it)"""
+        hs = [h for h in IOX.handles_in(v) if h.src.eq(v["fname"].z)]
+        return hs[0] if len(hs) == 1 else None
+
     def K(v):
-        return to_z3(v["_k0"], "int")
+        """number of lines of the source the reading loop has dealt with at its head: a `for` loop over a sequence of lines the handle
+        handed out (iteration, readlines, read + splitlines ...) is `_k0` items into that sequence, which starts at line `seq_start`; a
+        `while` loop that pulls the lines itself (readline / next) stands where the handle's ghost cursor stands"""
+        h = the_handle(v)
+        if "_k0" in v:
+            return to_z3(v["_k0"], "int") + (h.cursor.seq_start if h is not None else 0)
+        if h is None:
+            raise Unsupported("parse_swc: a reading loop without a sequence index and without a text handle over the source")
+        return h.cursor.z
+
+    def loop_moves_the_cursor(eng, fr):
+        """loop state the body reaches through the handle only: its ghost cursor, when the loop pulls lines itself (a `while` loop; a
+        `for` loop over a handed-out sequence is positioned by its own index)"""
+        from pyvc.loops import _visible
+
+        vs = _visible(fr)
+        return IOX.Cursors([] if "_k0" in vs else [h.cursor for h in IOX.handles_in(vs)])
 
     def inv_equal(E, v, o):
         f, ne = ctx(v)
@@ -631,7 +666,7 @@ def register_parse(R):
         ev = [e for e in IOX.events(E) if e["op"] in ("open", "wrap") and e.get("mode", "r") != "rb"]
         if kind == "text-stream":
             return ev == []
-        if len(ev) != 1 or ev[0]["op"] != ("wrap" if kind == "byte-stream" else "open") or ev[0].get("buffer", ev[0].get("name")) is not src or ev[0]["kwargs"] != {}:
+        if len(ev) != 1 or ev[0]["op"] != ("wrap" if kind == "byte-stream" else "open") or ev[0].get("buffer", ev[0].get("name")) is not src or relevant_options(ev[0]["kwargs"]) != {}:
             return False
         enc = ev[0]["encoding"]
         if o["encoding"] != "detect":
@@ -688,6 +723,7 @@ def register_parse(R):
                        ("fields-are-the-conversions-of-the-row-groups", inv_fields),
                        ("comments-so-far", inv_comments),
                        ("lines-so-far-read-and-classified", inv_consumed)],
+            modifies=[loop_moves_the_cursor],
             types={"comments": "ref"})},
         options=dict(asserts_after={"vals": [("element-types-declared", declare_element_types)]}),
         notes="number of lines, every line, every token and every converted value symbolic/abstract; the inner loop over the "
